@@ -122,6 +122,14 @@ func genC07(r *Rand, tier string) []Case {
 			names := Pick(r, [][2]string{{"x", "y"}, {"x", "x"}, {"c1", "y"}})
 			third := &Stmt{From: &From{K: "table", Path: []string{fmt.Sprintf("c%d", nc)}}, Items: []Item{{E: Col("id")}}}
 			q = &Stmt{Union: true, All: true, With: encl, L: &Stmt{Union: true, All: true, L: own(names[0]), R: own(names[1])}, R: third}
+			if r.Chance(35) {
+				// the same parsed union (operands with their own WITH) is built twice: it is the body of a CTE that both
+				// sides of an outer UNION ALL read
+				tags = append(tags, "union-body-built-twice")
+				body := &Stmt{Union: true, All: r.Bool(), L: own(names[0]), R: own(names[1])}
+				read := func() *Stmt { return &Stmt{From: &From{K: "table", Path: []string{"w"}}, Items: []Item{{Star: true}}} }
+				q = &Stmt{Union: true, All: true, With: []CTE{{Name: "w", Q: body}}, L: read(), R: read()}
+			}
 		case 9: // a CTE whose body has its own WITH re-using the name of an enclosing CTE; the enclosing one is read afterwards
 			tags = append(tags, "cte-nested-with-same-name")
 			q1, _, _ := innerQuery(r, t, &tags)
